@@ -22,6 +22,7 @@ type modCase struct {
 	Edges [][]string `json:"edges"`
 	Main  []string   `json:"main"`
 	Mods  []string   `json:"mods"`
+	More  bool       `json:"more"`  // further home-module probes (handler, type construction, type method)
 	Extra string     `json:"extra"` // extra statements appended to the main file (probe programs)
 	Sel   map[string][]string `json:"sel"` // selective import lists for main: module -> exported names
 }
@@ -61,7 +62,11 @@ func handleModule(raw json.RawMessage) interface{} {
 			sb.WriteString("导入“" + modName[d] + "”\n")
 		}
 		x := modShort[m]
-		fmt.Fprintf(&sb, "如何%s方法？\n    输出（%s辅助）\n\n如何%s辅助？\n    输出“%s-help”\n\n定义%s类：\n    其名 = “%s”\n\n令%s私有 = 1\n（显示：“body-%s”）\n", x, x, x, x, x, x, x, m)
+		fmt.Fprintf(&sb, "如何%s方法？\n    输出（%s辅助）\n\n如何%s辅助？\n    输出“%s-help”\n\n", x, x, x, x)
+		// the module's own names are also in reach of a handler block, of a body that builds the module's type,
+		// and of a method of that type
+		fmt.Fprintf(&sb, "如何%s险？\n    抛出异常：“x”！\n    拦截异常：\n        输出（%s辅助）\n\n如何%s造？\n    令物 = （新建%s类）\n    输出物之名\n\n", x, x, x, x)
+		fmt.Fprintf(&sb, "定义%s类：\n    其名 = “%s”\n\n    如何助？\n        输出（%s辅助）\n\n令%s私有 = 1\n（显示：“body-%s”）\n", x, x, x, x, m)
 		p := modPath(dir, m)
 		os.MkdirAll(filepath.Dir(p), 0755)
 		os.WriteFile(p, []byte(sb.String()), 0644)
@@ -77,6 +82,11 @@ func handleModule(raw json.RawMessage) interface{} {
 	for _, m := range c.Mods {
 		x := modShort[m]
 		fmt.Fprintf(&sb, "如何试%s？\n    输出（%s方法）\n    拦截异常：\n        输出“ERR”\n\n", x, x)
+		if c.More {
+			fmt.Fprintf(&sb, "如何试%s险？\n    输出（%s险）\n    拦截异常：\n        输出“ERR”\n\n", x, x)
+			fmt.Fprintf(&sb, "如何试%s造？\n    输出（%s造）\n    拦截异常：\n        输出“ERR”\n\n", x, x)
+			fmt.Fprintf(&sb, "如何试%s助？\n    令物 = （新建%s类）\n    输出以物（助）\n    拦截异常：\n        输出“ERR”\n\n", x, x)
+		}
 	}
 	sb.WriteString("（显示：“body-main”）\n")
 	var probes []string
@@ -84,6 +94,16 @@ func handleModule(raw json.RawMessage) interface{} {
 		probes = append(probes, "（试"+modShort[m]+"）")
 	}
 	sb.WriteString("（显示：" + strings.Join(probes, "、") + "）\n")
+	if c.More {
+		for _, kind := range []string{"险", "造", "助"} {
+			var ps []string
+			for _, m := range c.Mods {
+				x := modShort[m]
+				ps = append(ps, "（试"+x+kind+"）")
+			}
+			sb.WriteString("（显示：" + strings.Join(ps, "、") + "）\n")
+		}
+	}
 	sb.WriteString(c.Extra)
 	mainPath := filepath.Join(dir, "主.zn")
 	os.WriteFile(mainPath, []byte(sb.String()), 0644)
